@@ -470,6 +470,10 @@ class Evaluator:
                 if (a is Ellipsis or b is Ellipsis) and all(x is Ellipsis or isinstance(x, (int, float, str, slice, list, tuple, dict)) for x in (a, b)):
                     r = a is b  # Ellipsis is a singleton; concrete values of other types are never it
                     return r if isinstance(op, ast.Is) else not r
+                singles = [x for x in (a, b) if isinstance(x, Opaque) and x.tag in ("NotImplemented",)]
+                if singles and all((isinstance(x, Opaque) and x.tag == "NotImplemented") or isinstance(x, (bool, int, float, str, list, tuple, dict)) for x in (a, b)):
+                    r = len(singles) == 2  # the singleton NotImplemented against a concrete value of another type
+                    return r if isinstance(op, ast.Is) else not r
                 raise NotEval("identity test")
             if isinstance(op, (ast.Eq, ast.NotEq)) and _concrete(a) and _concrete(b) and not all(isinstance(x, (int, float, str, bool)) for x in (a, b)):
                 return (a == b) if isinstance(op, ast.Eq) else (a != b)
